@@ -374,11 +374,33 @@ func runC17(c caseC17, o *gen.Obs) error {
 		// a build failure of the generated program is a harness/toolchain problem or a tree that does not compile
 		return &gen.Inconclusive{Msg: fmt.Sprintf("go build failed: %v\n%s", err, out)}
 	}
-	ctx, cancel := context.WithTimeout(context.Background(), 20*time.Second+time.Duration(c.IdleMs)*time.Millisecond)
+	var (
+		stdout, stderr bytes.Buffer
+		rerr           error
+		timedOut       bool
+	)
+	// 20 s for a program that hashes once; if it does not finish, it is given 60 s in a second run before it is declared
+	// blocked (on a saturated machine a process can be starved for a long time; a deadlock stays a deadlock)
+	for _, limit := range []time.Duration{20 * time.Second, 60 * time.Second} {
+		stdout.Reset()
+		stderr.Reset()
+		timedOut, rerr = runProgram(c, o, dir, limit+time.Duration(c.IdleMs)*time.Millisecond, &stdout, &stderr)
+		if !timedOut {
+			break
+		}
+	}
+	if timedOut {
+		return gen.Fail(c.Fn+"/program-hangs", "a program importing %v (%d rejected calls first) did not finish within 20 s and, run again, within 60 s: %s never returned", imports, c.Rejected, c.Fn)
+	}
+	return judgeProgram(c, imports, msg, dst, stdout.String()+stderr.String(), rerr)
+}
+
+// runProgram runs the built program once with a deadline. It reports whether the deadline was hit.
+func runProgram(c caseC17, o *gen.Obs, dir string, limit time.Duration, stdout, stderr *bytes.Buffer) (bool, error) {
+	ctx, cancel := context.WithTimeout(context.Background(), limit)
 	defer cancel()
 	run := exec.CommandContext(ctx, filepath.Join(dir, "prog"))
-	var stdout, stderr bytes.Buffer
-	run.Stdout, run.Stderr = &stdout, &stderr
+	run.Stdout, run.Stderr = stdout, stderr
 	if c.SingleP {
 		run.Env = append(os.Environ(), "GOMAXPROCS=1")
 		o.Class("single-p")
@@ -386,7 +408,7 @@ func runC17(c caseC17, o *gen.Obs) error {
 	if c.DeadStderr {
 		pr, pw, perr := os.Pipe()
 		if perr != nil {
-			return &gen.Inconclusive{Msg: perr.Error()}
+			return false, perr
 		}
 		pr.Close() // nobody reads: a write to fd 2 raises SIGPIPE
 		defer pw.Close()
@@ -394,11 +416,11 @@ func runC17(c caseC17, o *gen.Obs) error {
 		o.Class("dead-stderr")
 	}
 	rerr := run.Run()
-	if ctx.Err() != nil {
-		// a hashing call of a few microseconds that has not returned after 20 s (in a process doing nothing else) never returns
-		return gen.Fail(c.Fn+"/program-hangs", "a program importing %v (%d rejected calls first) did not finish within 20 s: %s never returned", imports, c.Rejected, c.Fn)
-	}
-	all := stdout.String() + stderr.String()
+	return ctx.Err() != nil, rerr
+}
+
+// judgeProgram compares what the program printed with the model.
+func judgeProgram(c caseC17, imports []string, msg, dst []byte, all string, rerr error) error {
 	var want []byte
 	switch c.Fn {
 	case "HashToGroup":
